@@ -950,7 +950,11 @@ func (x *Exec) Quiesce() {
 				continue
 			}
 			before := rep.Doc.Checkpoint().String() + rep.Doc.Marshal()
-			hadLocal := rep.Doc.HasLocalChanges()
+			// Progress is a change of state, not "had something to send": a change the
+			// server accepts without storing and without acknowledging (a presence-only
+			// change sent to a presenceless document by a client that attached with
+			// presence) stays pending and is re-sent on every sync without effect.
+			localBefore := len(rep.Doc.CreateChangePack().Changes)
 			err, panicked := guard(func() error { return x.sync(rep) })
 			if panicked {
 				x.violate("panic", "panic:quiesce:"+NormErr(firstLine(err.Error())), err.Error())
@@ -968,7 +972,7 @@ func (x *Exec) Quiesce() {
 			}
 			x.trace(fmt.Sprintf("Q round %d sync c%d", round, rep.Role), nil)
 			after := rep.Doc.Checkpoint().String() + rep.Doc.Marshal()
-			if before != after || hadLocal {
+			if before != after || localBefore != len(rep.Doc.CreateChangePack().Changes) {
 				changed = true
 			}
 		}
